@@ -33,6 +33,7 @@ CONSTANTS Alphabet,     \* bytes the peer may send
           WriteLens,    \* payload lengths offered to Write
           MaxWrites,    \* bound on the number of write calls
           Grants,       \* amounts of bytes the transport may newly accept
+          MaxCredit,    \* bound on the unused transport credit
           Mwbs,         \* max_write_buffer_size values explored (0 = unlimited)
           Ccs,          \* {0,1}: close callback installed?
           Conns,        \* {0,1}: 1 = stream starts unconnected and connect() is called first
@@ -248,7 +249,9 @@ ReadClosed(k) ==
                /\ buf' = buf - n
           /\ UNCHANGED rdead
        \/ /\ C = {} \/ rdead
-          /\ rd' = Closed(serr)
+          \* (after an unsatisfiable-read close the class of a later read's failure is not specified)
+          /\ rd' \in {Closed(serr)} \cup (IF serr = "UnsatisfiableReadError"
+                                           THEN {Exc("UnsatisfiableReadError", "none")} ELSE {})
           /\ rdead' = TRUE
           /\ UNCHANGED <<pos, buf>>
     /\ cbl' = "na"
@@ -285,7 +288,8 @@ Deliver(c) ==
               /\ wth' = <<>> /\ wq' = <<>>
               /\ ccb' = ccb + cfg.cc
               /\ cbl' = IF cfg.cc = 1 THEN "yes" ELSE "na"
-              /\ buf' = Len(s)                       \* a pending read has taken everything available
+              \* the stream took more than max_bytes from the transport, not necessarily everything
+              /\ \E b \in (rk[3] + 1)..Len(s) : buf' = b
               /\ held' = 0
               /\ UNCHANGED <<cfg, pos, tc, co, sent, wall, credit, rdead, wc>>
        ELSE /\ stream' = stream \o c
@@ -380,7 +384,7 @@ Write(n) ==
 Grant(g) ==
     /\ "grant" \in Ops
     /\ st = "open" /\ wc = "none" /\ tc = "none"
-    /\ credit + g <= 12
+    /\ credit + g <= MaxCredit
     /\ IF Connecting
          THEN credit' = credit + g /\ UNCHANGED <<sent, wq, wth, wr>>
          ELSE Flush(wq, credit + g, wth, wr)
@@ -469,8 +473,8 @@ PendingMeansUnsatisfied ==
 
 (* C11 max_bytes: a delimiter read never returns more than max_bytes *)
 MaxBytesRespected ==
-    [][\A k \in ReadKinds : (step'.act = "read" /\ step'.args = <<k>> /\ IsDelim(k) /\ k[3] # 0 /\ rd'[1] = "ok" /\ rd # Pending)
-            => Len(rd'[2]) <= k[3]]_<<vars, step>>
+    [][(step'.act = "read" /\ rd # Pending /\ IsDelim(step'.args[1]) /\ step'.args[1][3] # 0 /\ rd'[1] = "ok")
+            => Len(rd'[2]) <= step'.args[1][3]]_<<vars, step>>
 PendingMaxBytesRespected ==
     [][(rk # <<>> /\ IsDelim(rk) /\ rk[3] # 0 /\ rd'[1] = "ok") => Len(rd'[2]) <= rk[3]]_<<vars, step>>
 
